@@ -6,6 +6,7 @@ pub mod c03;
 pub mod c04;
 pub mod c05;
 pub mod c06;
+pub mod c07;
 pub mod c08;
 pub mod c09;
 pub mod c10;
@@ -31,6 +32,7 @@ pub fn registry() -> Vec<(&'static str, RunFn, ReplayFn)> {
         ("C04", c04::run as RunFn, c04::replay as ReplayFn),
         ("C05", c05::run as RunFn, c05::replay as ReplayFn),
         ("C06", c06::run as RunFn, c06::replay as ReplayFn),
+        ("C07", c07::run as RunFn, c07::replay as ReplayFn),
         ("C08", c08::run as RunFn, c08::replay as ReplayFn),
         ("C09", c09::run as RunFn, c09::replay as ReplayFn),
         ("C10", c10::run as RunFn, c10::replay as ReplayFn),
